@@ -75,6 +75,12 @@ def toIpv4 (segs : List Nat) : Option Bytes :=
     if f = 0 ∨ f = 0xffff then some [ab / 256, ab % 256, cd / 256, cd % 256] else none
   | _ => none
 
+/-- the V6 branch's result: a V4 address when `to_ipv4()` is `Some` -/
+def v6Result (segs : List Nat) (port : Nat) : PeerAddr :=
+  match toIpv4 segs with
+  | some ip => .v4 ip port
+  | none => .v6 segs port
+
 /-- `Readable for PeerAddr`.  `ip[0..3]` on the 4-byte `Vec` and `ip[0..7]` on the 8 collected
 segments are in range by construction (explicit `index` panic branches otherwise). -/
 def decPeerAddr (rd : Rdr) : Dec PeerAddr := fun bs =>
@@ -87,9 +93,7 @@ def decPeerAddr (rd : Rdr) : Dec PeerAddr := fun bs =>
       bind (readN rU16 8 r) fun segs r =>
         if segs.length ≠ 8 then .panic .index 0 else
         bind (rU16 r) fun port r =>
-          match toIpv4 segs with
-          | some ip => .ok (.v4 ip port) r 0
-          | none => .ok (.v6 segs port) r 0
+          .ok (v6Result segs port) r 0
 
 /-- `size_of::<PeerAddr>()` (= `SocketAddr`) -/
 def PEER_ADDR_MEM : Nat := 32
